@@ -918,7 +918,11 @@ class IfModifiedSince(Suite):
     def cases(self, tier):
         for stack in RANGE_STACKS:
             for ti in range(len(IMS_TARGETS)):
-                for rng in (None, 'bytes=1-2'):
+                # RFC 9110 13.2.2: If-Modified-Since is evaluated before Range, which only applies to what would be a 200:
+                # an unsatisfiable or malformed Range must not turn a 304 into 416 / 400
+                for rng in (None, 'bytes=1-2', 'bytes=999999-', 'bytes=8-4'):
+                    if rng in ('bytes=999999-', 'bytes=8-4') and stack != RANGE_STACKS[0] and ti:
+                        continue
                     for fmt in IMS_VALID + IMS_OBSOLETE + IMS_LENIENT + IMS_MALFORMED:
                         deltas = IMS_DELTAS if fmt in IMS_VALID + IMS_OBSOLETE else [-86400, -1, 0, 1, 86400]
                         for d in deltas:
@@ -976,6 +980,10 @@ class IfModifiedSince(Suite):
         code = res.code
 
         def served():
+            if case['range'] == 'bytes=999999-':
+                return check_range_outcome(res, {('416',)}, data, what)
+            if case['range'] == 'bytes=8-4':
+                return check_range_outcome(res, {('400',), ('200',)}, data, what)
             if case['range']:
                 return check_range_outcome(res, {('206', 1, 2)}, data, what)
             return check_range_outcome(res, {('200',)}, data, what)
